@@ -84,6 +84,10 @@ void check_render(Entry en, double x, int precision, bool full_message)
     size_t len = strnlen(blk.c(), room);
     VP_CHECK(len < room, "ftoa_unterminated", "%s(%a, %d): no terminator within %zu bytes", entry_name[en], x, precision, room);
     std::string t(blk.c(), len);
+    // "no write beyond the text": everything behind the terminator still holds the fill pattern
+    for (size_t i = len + 1; i < room; i++)
+        VP_CHECK(blk.p[i] == 0x7e, "ftoa_wrote_beyond_text", "%s(%a, %d) = '%s' (%zu characters) but the byte %zu behind the terminator was overwritten with 0x%02x",
+                 entry_name[en], x, precision, t.c_str(), len, i - len, blk.p[i]);
     float xf = (float)x; // the renderer works on the float value
     if (std::isnan(xf))
     {
